@@ -180,4 +180,98 @@ theorem cgEager_first_step (hip : SymmBilin ip) (hm : Linear (K := K) mat) (hsa 
       nlinarith
     nlinarith [mul_pos ht hγ]
 
+/-! ### positive definite systems: the solver never fails -/
+
+theorem absK_nonneg (a : K) : 0 ≤ absK a := by
+  unfold absK; split_ifs with h
+  · linarith
+  · exact not_lt.mp h
+
+theorem eagerStep_spd (hip : SymmBilin ip) (hm : Linear (K := K) mat) (hsa : SelfAdj ip mat)
+    (hnn : ∀ a, 0 ≤ ip a a) (hpd : ∀ v : V, v ≠ 0 → 0 < ip v (mat v)) (heps : 0 ≤ c.eps) (htiny : 0 ≤ c.tiny)
+    (E0 : K) (i : Nat) (hi : 1 ≤ i) (s : St K V) (hinv : InvB ip mat j E0 s) (hγ : 0 < s.gamma) :
+    match eagerStep c ip mat j i s with
+    | .next s' => InvB ip mat j E0 s' ∧ 0 < s'.gamma
+    | .stop (.ok res) => res.info = 0 ∧ (res.why = .gammaTiny ∨ res.why = .resnorm ∨ res.why = .absdelta)
+    | .stop (.error _) => False := by
+  have hB := eagerStep_specB c ip mat j hip hm hsa hnn E0 i hi s hinv
+  obtain ⟨hA, hrd, hE0⟩ := hinv
+  obtain ⟨hr, hg, he⟩ := hA
+  have hb := hip.toBilin
+  have hd : s.d ≠ 0 := by
+    intro h0
+    rw [h0, hb.zero_right] at hrd
+    linarith
+  have hc : 0 < ip s.d (mat s.d) := hpd _ hd
+  have hq : ∀ a : K, quadE ip mat j (s.pos - a • s.d)
+      = quadE ip mat j s.pos - a * s.gamma + (half : K) * a ^ 2 * ip s.d (mat s.d) := by
+    intro a; rw [quadE_step ip mat j hip hm hsa, ← hr, hrd]
+  revert hB
+  unfold eagerStep
+  simp only [ne_of_gt hc, not_lt.mpr hc.le, if_false]
+  generalize hα : s.gamma / ip s.d (mat s.d) = α
+  generalize hp : s.pos - α • s.d = pos'
+  have hrr : (if i % c.nreset = 0 then mat pos' - j else s.r - α • mat s.d) = mat pos' - j := by
+    split_ifs
+    · rfl
+    · rw [← hp]; exact resid_step mat j hm s.pos s.r s.d α hr
+  rw [hrr]
+  have hE : energyOf ip j (mat pos' - j) pos' = quadE ip mat j pos' := energyOf_eq ip mat j hb pos'
+  rw [hE, he]
+  have hdiff : quadE ip mat j s.pos - quadE ip mat j pos' = (half : K) * s.gamma ^ 2 / ip s.d (mat s.d) := by
+    rw [← hp, hq, ← hα]; simp only [half]; field_simp; ring
+  have hdiff0 : 0 ≤ quadE ip mat j s.pos - quadE ip mat j pos' := by
+    rw [hdiff]; apply div_nonneg _ hc.le; simp only [half]; positivity
+  have hnoinc : ¬ (quadE ip mat j s.pos - quadE ip mat j pos' < -(c.eps * absK (quadE ip mat j pos'))) := by
+    have := mul_nonneg heps (absK_nonneg (quadE ip mat j pos'))
+    intro h; linarith
+  simp only [hnoinc, if_false]
+  split_ifs with hT hR hA
+  · intro _; exact ⟨rfl, Or.inl rfl⟩
+  · intro _; exact ⟨rfl, Or.inr (Or.inl rfl)⟩
+  · intro _; exact ⟨rfl, Or.inr (Or.inr rfl)⟩
+  · intro hB
+    simp only [] at hB ⊢
+    refine ⟨hB, ?_⟩
+    have h0 := hnn (mat pos' - j)
+    by_contra hle
+    exact hT ⟨h0, le_trans (not_lt.mp hle) htiny⟩
+
+theorem loop_spd (hip : SymmBilin ip) (hm : Linear (K := K) mat) (hsa : SelfAdj ip mat)
+    (hnn : ∀ a, 0 ≤ ip a a) (hpd : ∀ v : V, v ≠ 0 → 0 < ip v (mat v)) (heps : 0 ≤ c.eps) (htiny : 0 ≤ c.tiny)
+    (E0 : K) : ∀ (fuel i : Nat) (s : St K V), 1 ≤ i → InvB ip mat j E0 s → 0 < s.gamma →
+    ∃ res, eagerLoop c ip mat j fuel i s = .ok res ∧ (res.info = 0 ∨ res.why = .maxiter) := by
+  intro fuel
+  induction fuel with
+  | zero => intro i s _ _ _; exact ⟨_, rfl, Or.inr rfl⟩
+  | succ fuel ih =>
+    intro i s hi hinv hγ
+    have hstep := eagerStep_spd c ip mat j hip hm hsa hnn hpd heps htiny E0 i hi s hinv hγ
+    rw [eagerLoop]
+    cases hE : eagerStep c ip mat j i s with
+    | stop r =>
+      rw [hE] at hstep
+      cases r with
+      | ok res => exact ⟨res, rfl, Or.inl hstep.1⟩
+      | error e => exact absurd hstep id
+    | next s' =>
+      rw [hE] at hstep
+      simp only at hstep ⊢
+      exact ih (i + 1) s' (by omega) hstep.1 hstep.2
+
+/-- on a positive definite system `_cg` never raises, never stops for non-positive curvature or energy increase:
+    it returns with `info = 0` or at the iteration limit -/
+theorem cgEager_spd (hip : SymmBilin ip) (hm : Linear (K := K) mat) (hsa : SelfAdj ip mat)
+    (hnn : ∀ a, 0 ≤ ip a a) (hpd : ∀ v : V, v ≠ 0 → 0 < ip v (mat v)) (heps : 0 ≤ c.eps) (htiny : 0 ≤ c.tiny)
+    (x0 : Option V) : ∃ res, cgEager c ip mat j x0 = .ok res ∧ (res.info = 0 ∨ res.why = .maxiter) := by
+  have hinit := init_invB ip mat j hip hm x0
+  unfold cgEager
+  simp only []
+  split_ifs with hz
+  · exact ⟨_, rfl, Or.inl rfl⟩
+  · have hγ : 0 < (init ip mat j x0).gamma := by
+      rw [init_gamma] at hz ⊢
+      exact lt_of_le_of_ne (hnn _) (Ne.symm hz)
+    exact loop_spd c ip mat j hip hm hsa hnn hpd heps htiny _ (maxiterEff c) 1 _ (le_refl _) hinit hγ
+
 end NiftyVerif.CgRe
